@@ -1065,6 +1065,8 @@ func (e *Env) call(n *ast.CallExpr) tv {
 		return tv{Select(heapArr(e.h(), "G|oncedone", ArrayS(IntS, BoolS)), argT(0)), nil}
 	case "noopfn":
 		return tv{App("noopfn", BoolS, argT(0)), nil}
+	case "emptyblobfn": // the function value is a literal `func() (blob.Blob, error) { return blob.NewBytes(nil), nil }`
+		return tv{App("emptyblobfn", BoolS, argT(0)), nil}
 	case "mkstruct":
 		// mkstruct(T, f0, f1, ...): a struct value of type T
 		t := e.resolveType(n.Args[0])
